@@ -79,6 +79,12 @@ def check(rep, model, tier):
         if ok:
             k, v, gd = res[2][0]
             init = res[1]
+            if k[0] == 'path' and len(k[1]) == 2 and k[1][0][0] == 'floordiv' and k[1][1][0] == 'mod' and k[1][0][1] == k[1][1][1] and k[1][0][1][0] == 'lv' \
+                    and k[1][0][2] == grp.N1 and k[1][1][2] == grp.N1 and v == T.index(evs[0]['result'], k[1][0][1]) \
+                    and k[1][0][1][1] in (('range', C(0), T.length(evs[0]['result']), C(1)), ('range', C(0), T.mul(grp.N0, grp.N1), C(1))):
+                # scatter form: for idx over the flat result, out[idx // n1][idx % n1] = flat[idx]  -  the same assignment as the gather form
+                # out[i][j] = flat[i*n1 + j] (idx = i*n1 + j, 0 <= j < n1), given one flat entry per signal (which C11 decides)
+                k, v = ('path', (lv0, lv1)), T.index(evs[0]['result'], want_idx)
             if k != ('path', (lv0, lv1)):
                 ok, why = False, f'stores at {T.brief(k, 100)} (expected [i][j] for i < n0, j < n1)'
             elif v != T.index(evs[0]['result'], want_idx):
